@@ -179,6 +179,11 @@ pub enum Surgery {
     /// with a Latin ligature, so the fraction path of the shaper never meets a run that a
     /// ligature shortened. `glyphs` = [f, i, slash, digit0..digit9] as the cmap maps them.
     InstallFracLiga { glyphs: Vec<u16>, variant: u64 },
+    /// The GSUB of `InstallFracLiga` (ligatures of two and three components on `glyphs[0..2]`)
+    /// plus a GDEF that classes `mark` as a mark and the ligature glyph as a ligature, and a GPOS
+    /// whose `mark` feature holds a MarkLigPos lookup with anchors for `components` components
+    /// (1-3: fewer than, as many as, or more than the ligature that GSUB formed has).
+    InstallMarkLig { glyphs: Vec<u16>, mark: u16, components: u8, variant: u64 },
     /// Re-pack `hmtx` with only `num_h_metrics` long metrics (glyphs after that take the last
     /// advance and keep their side bearing) and update `hhea`. Every corpus CFF2 font and most
     /// others have numberOfHMetrics == numGlyphs, which hides the compact form from the writers.
